@@ -34,8 +34,10 @@ rm -f $DEMODIR/$(basename $DEMO)
 echo "--- existing tests on CHANGED (expect ok)"; go test -vet=off -count=1 $PKGS 2>&1 | grep -v "no test files" | grep -v "^ok" | head -10; echo "(end of non-ok lines)"
 git checkout -q -- . ; git clean -qfd -e _seed
 D=/verif/seeded/$ID-${DEST:-$K}; mkdir -p $D; cp $S/* $D/
+if [ -z "${NOREPO:-}" ]; then
 echo "--- checks against /repo with patch"
 git -C /repo apply $S/patch.diff || { echo "patch does not apply to /repo"; exit 2; }
 [ -n "${SKIPCHECK:-}" ] || for c in $CHECKS; do (cd /verif && ./check $c 2>&1 | tail -2); done
 git -C /repo checkout -- .
+fi
 rm -f /tmp/seed-$ID-$K.orig /tmp/seed-$ID-$K.chg
